@@ -114,6 +114,23 @@ def check(ctx, src):
             ctx.check(_ends_in_replace(c), "POS-SYNTH", key, "a synthesised form is compiled without being given the position of the user's form: its nodes default to line 1", R, c.lineno,
                       witness="(+= total i None) on line 7 raises with a traceback pointing at line 1", detail=".replace(expr)")
     ctx.need(n_syn >= 6, f"only {n_syn} synthesised forms found")
+    # macro output inherits the call site's position through replace_hy_obj: the promoted model must be given the position
+    # by its own (recursive, for sequences) `.replace(other)` - not by a base-class call that skips the children
+    mo_ = src.py("hy/models.py")
+    rho = mo_.func("replace_hy_obj")
+    ctx.require(rho is not None, "replace_hy_obj not found")
+    rets_ = [r for r in pyq.walk_no_nested(rho) if isinstance(r, ast.Return) and r.value is not None]
+    def _recursive_replace(v):
+        if isinstance(v, ast.Call) and isinstance(v.func, ast.Attribute) and v.func.attr == "replace":
+            base = v.func.value
+            if isinstance(base, ast.Name) and base.id[:1].isupper():
+                return False        # Object.replace(model, other): the class's own replace is bypassed
+            return True
+        return None
+    vs = [_recursive_replace(r.value) for r in rets_]
+    ctx.decide("POS-SYNTH", "hy/models.py|replace_hy_obj|recursive replace", None if not vs or None in vs and False not in vs else all(v is True for v in vs),
+               "replace_hy_obj must position the whole promoted model with its own `.replace(other)`; calling a base class's replace leaves the children of a freshly built sequence without positions",
+               "hy/models.py", rho.lineno, witness="a macro returning [1 (/ 1 0)] as a raw list: the inner form has no line number in tracebacks", detail="as_model(obj).replace(other)")
     ctx.assume("which line a concrete traceback shows is not simulated; position sources taken from possibly empty Results are listed as unresolved")
     ctx.floor("POS-ATTRS", 5)
 
